@@ -62,7 +62,9 @@ func Walk(v Visitor, node ast.Node) {
 		}
 
 	case *ast.Break:
-		Walk(v, n.Label)
+		if n.Label != nil {
+			Walk(v, n.Label)
+		}
 
 	case *ast.Call:
 		for _, arg := range n.Args {
@@ -99,7 +101,9 @@ func Walk(v Visitor, node ast.Node) {
 		}
 
 	case *ast.Continue:
-		Walk(v, n.Label)
+		if n.Label != nil {
+			Walk(v, n.Label)
+		}
 
 	case *ast.Defer:
 		Walk(v, n.Call)
@@ -147,8 +151,11 @@ func Walk(v Visitor, node ast.Node) {
 		}
 
 	case *ast.Func:
-		for _, child := range n.Body.Nodes {
-			Walk(v, child)
+		// Body is nil for a function declaration without body.
+		if n.Body != nil {
+			for _, child := range n.Body.Nodes {
+				Walk(v, child)
+			}
 		}
 
 	case *ast.FuncType:
@@ -242,6 +249,14 @@ func Walk(v Visitor, node ast.Node) {
 			Walk(v, child)
 		}
 
+	case *ast.StructType:
+		for _, field := range n.Fields {
+			for _, ident := range field.Idents {
+				Walk(v, ident)
+			}
+			Walk(v, field.Type)
+		}
+
 	case *ast.Switch:
 		Walk(v, n.Init)
 		Walk(v, n.Expr)
@@ -256,6 +271,10 @@ func Walk(v Visitor, node ast.Node) {
 
 	case *ast.TypeAssertion:
 		Walk(v, n.Expr)
+
+	case *ast.TypeDeclaration:
+		Walk(v, n.Ident)
+		Walk(v, n.Type)
 
 	case *ast.TypeSwitch:
 		Walk(v, n.Init)
